@@ -7,5 +7,6 @@ sys.path.insert(0, os.path.dirname(os.path.dirname(os.path.abspath(__file__))))
 from sa.model import Repo
 r = Repo("/repo")
 names = sorted(f.fq for f in r.all_functions())
+names += sorted(f"const {m.name}:{c}" for m in r.modules.values() for c in m.constants)
 open(os.path.join(os.path.dirname(os.path.dirname(os.path.abspath(__file__))), "sa", "known_functions.txt"), "w").write("\n".join(names) + "\n")
 print(len(names), "functions")
